@@ -408,6 +408,7 @@ fn parse_at_rule(
                 "media",
                 "supports",
                 "document",
+                "-moz-document",
                 "layer",
                 "container",
                 "scope",
